@@ -430,6 +430,7 @@ class LoopSpec(object):
         self.stop_after = False      # end the path when the loop exits (the contract covers the function up to here)
         self.rebind = None           # callback(ls) after the havoc: (re)create interpreter-level objects the invariant talks about
         self.after_body = None       # callback(ls) at the end of the symbolic iteration of a while loop (per-iteration obligations)
+        self.lookahead = 0           # rows the function may legitimately hold before the loop starts (documented one-row look-ahead)
 
 
 class LoopState(object):
